@@ -5,7 +5,7 @@
    tied by the exact correspondence of tools/props/c10.py. *)
 From Coq Require Import Reals Lra Lia List Bool Arith ZArith String.
 From PP Require Import Kern.RBool Gen.KThermNp Gen.KThermNb Gen.KThermExpr Gen.KHooksHeat
-                       C10.Spec C10.Model C10.Assembly C10.Proofs.
+                       C10.Spec C10.Model C10.Assembly C10.Proofs C10.Global C10.GlobalPipe.
 Import ListNotations.
 Open Scope R_scope.
 
@@ -148,6 +148,36 @@ Theorem local_bounds_node_pipeline : forall tw cp amb Tn isT n pbs i lo hi,
 Proof. exact node_temperature_between_inflows. Qed.
 Print Assumptions local_bounds_node_pipeline.
 
+(* ---- 5. global bounds (maximum principle).  Graph form: edges = flowing branches in flow direction with positive
+        mixing weights; every node downstream of an infeed node ([up]); hypotheses = conclusions of the local theorems *)
+Theorem global_bounds_graph : forall n T infeed es lo hi,
+  (forall e, In e es -> (e_from e < n)%nat /\ (e_to e < n)%nat) ->
+  (forall e, In e es -> 0 < e_w e) ->
+  (forall i, (i < n)%nat -> infeed i = true -> lo <= T i <= hi) ->
+  (forall e, In e es -> lo <= e_text e <= hi) ->
+  (forall e, In e es -> Rmin (T (e_from e)) (e_text e) <= e_tout e <= Rmax (T (e_from e)) (e_text e)) ->
+  (forall i, (i < n)%nat -> infeed i = false -> gmix T i es = 0) ->
+  (forall i, (i < n)%nat -> up infeed es i) ->
+  (forall i, (i < n)%nat -> lo <= T i <= hi) /\ (forall e, In e es -> lo <= e_tout e <= hi).
+Proof.
+  intros. split; [eapply global_bounds_nodes | eapply global_bounds_outlets]; eauto.
+Qed.
+Print Assumptions global_bounds_graph.
+
+(* pipeline form: at a fixed point of the assembled system over the generated kernels, without heat sources
+   ([passive]: flowing, no pump, Q = 0, TL = 0, alpha, L, d >= 0, ambient in [lo, hi]), c_p > 0, infeed nodes in
+   [lo, hi], every node downstream of an infeed node: all node and outlet temperatures lie in [lo, hi] *)
+Theorem global_bounds : forall tw cp amb Tn isT n pbs lo hi,
+  (forall t, 0 < cp t) ->
+  fixed_point tw cp amb Tn isT n pbs ->
+  Forall (passive tw n lo hi) pbs ->
+  (forall i, (i < n)%nat -> node_infeed tw cp amb Tn pbs i = true -> lo <= Tn i <= hi) ->
+  (forall i, (i < n)%nat -> up (node_infeed tw cp amb Tn pbs) (edges_of tw cp Tn pbs) i) ->
+  (forall i, (i < n)%nat -> lo <= Tn i <= hi) /\
+  (forall pb, In pb pbs -> lo <= p_tout pb <= hi).
+Proof. exact global_bounds_pipeline. Qed.
+Print Assumptions global_bounds.
+
 (* ---- 6. direction switch *)
 Theorem direction_switch_assembly : forall (ns : list (@tnode R)) bs (sel : @tbranch R -> bool),
   let bs' := map (fun b => if sel b then redeclare b else b) bs in
@@ -194,6 +224,25 @@ Proof.
   split; [split; [reflexivity|repeat constructor]|]. split; [|split; [discriminate|now left]].
   intros r Hr. unfold dim in Hr. simpl in Hr.
   do 8 (destruct r as [|r]; [vm_compute; reflexivity|]). exfalso. lia.
+Qed.
+
+Example global_bounds_hypotheses_satisfiable :
+  let T := fun i : nat => match i with O => 360 | 1%nat => 350 | _ => 345 end in
+  let infeed := fun i : nat => Nat.eqb i 0 in
+  let es := [mkEdge 0 1 2 350 280; mkEdge 0 2 1 340 280; mkEdge 1 2 1 350 280] in
+  (forall e, In e es -> (e_from e < 3)%nat /\ (e_to e < 3)%nat) /\ (forall e, In e es -> 0 < e_w e) /\
+  (forall e, In e es -> Rmin (T (e_from e)) (e_text e) <= e_tout e <= Rmax (T (e_from e)) (e_text e)) /\
+  (forall i, (i < 3)%nat -> infeed i = false -> gmix T i es = 0) /\
+  (forall i, (i < 3)%nat -> up infeed es i).
+Proof.
+  cbv zeta. split; [|split; [|split; [|split]]].
+  - intros e [<-|[<-|[<-|[]]]]; simpl; lia.
+  - intros e [<-|[<-|[<-|[]]]]; simpl; lra.
+  - intros e [<-|[<-|[<-|[]]]]; simpl; unfold Rmin, Rmax; destruct (Rle_dec _ _); lra.
+  - intros i Hi Hf. destruct i as [|[|[|i]]]; simpl in *; try discriminate; try lra; lia.
+  - intros i Hi. destruct i as [|[|[|i]]]; [apply up_feed; reflexivity| | |lia].
+    + apply (up_edge _ _ (mkEdge 0 1 2 350 280)); [simpl; auto|apply up_feed; reflexivity].
+    + apply (up_edge _ _ (mkEdge 0 2 1 340 280)); [simpl; auto|apply up_feed; reflexivity].
 Qed.
 
 Example kernel_guards_satisfiable :
